@@ -58,6 +58,8 @@ def icfg : ICfg :=
     pyValueRange := Gen.C17.ioprioPyValueRange
     pyNoValueClasses := Gen.C17.ioprioPyNoValueClasses }
 
+def ecfg : ECfg := { castUnsigned := Gen.C17.ethSpeedCast }
+
 /-- the C table restricted to the macros the platform header defines, with their bits -/
 def iffLinux : List (Nat × String) :=
   Gen.C17.iffTable.filterMap fun e =>
